@@ -240,3 +240,81 @@ Proof.
       rewrite map_map. cbn [fst]. apply map_id.
   - exists 0. cbn. repeat split; auto; try lia; discriminate.
 Qed.
+
+(* ---- Vec1Mut::apply_mut_with / get_mut, Vec1::sort_unstable_by ---------------------------------- *)
+From Coq Require Import Sorting.Sorted Sorting.Permutation.
+
+Lemma get_mut_spec {T} (xs : list T) (i : nat) :
+  (i < length xs -> exists x, get_mut xs i = Some x /\ nth_error xs i = Some x)
+  /\ (length xs <= i -> get_mut xs i = None).
+Proof.
+  unfold get_mut. split; intros H.
+  - replace (i <? length xs) with true by (symmetry; apply Nat.ltb_lt; exact H).
+    destruct (nth_error xs i) as [x|] eqn:E; [exists x; auto|]. apply nth_error_None in E. lia.
+  - replace (i <? length xs) with false by (symmetry; apply Nat.ltb_ge; exact H). reflexivity.
+Qed.
+
+Lemma apply_mut_with_spec {T OT} (f : T -> OT -> T) (xs : list T) (ys : list OT) :
+  (length xs = length ys ->
+     exists out, apply_mut_with f xs ys = (true, out, combine xs ys) /\ length out = length xs /\
+       forall i x y, nth_error xs i = Some x -> nth_error ys i = Some y -> nth_error out i = Some (f x y))
+  /\ (length xs <> length ys -> apply_mut_with f xs ys = (false, xs, [])).
+Proof.
+  unfold apply_mut_with. split; intros H.
+  - rewrite H, Nat.eqb_refl. eexists. split; [reflexivity|]. split.
+    + rewrite map_length, combine_length. lia.
+    + intros i x y Hx Hy. rewrite nth_error_map, nth_error_combine, Hx, Hy. reflexivity.
+  - replace (length xs =? length ys) with false by (symmetry; apply Nat.eqb_neq; exact H). reflexivity.
+Qed.
+
+Section SortProofs.
+  Context {T : Type} (leb : T -> T -> bool).
+  Hypothesis leb_total : forall x y, leb x y = false -> leb y x = true.
+  Let le x y := leb x y = true.
+
+  Lemma insert_perm x l : Permutation (insert_sorted leb x l) (x :: l).
+  Proof.
+    induction l as [|y r IH]; [apply Permutation_refl|]. cbn [insert_sorted].
+    destruct (leb x y); [apply Permutation_refl|].
+    eapply Permutation_trans; [apply perm_skip; exact IH|apply perm_swap].
+  Qed.
+
+  Lemma isort_perm l : Permutation (isort leb l) l.
+  Proof.
+    induction l as [|x r IH]; [apply Permutation_refl|]. cbn [isort].
+    eapply Permutation_trans; [apply insert_perm|apply perm_skip; exact IH].
+  Qed.
+
+  Lemma insert_hdrel a x l : le a x -> HdRel le a l -> HdRel le a (insert_sorted leb x l).
+  Proof.
+    intros Hax Hl. destruct l as [|y r]; cbn [insert_sorted]; [constructor; exact Hax|].
+    destruct (leb x y); constructor; [exact Hax|]. inversion Hl; assumption.
+  Qed.
+
+  Lemma insert_sorted_sorted x l : Sorted le l -> Sorted le (insert_sorted leb x l).
+  Proof.
+    induction l as [|y r IH]; intros Hs; cbn [insert_sorted]; [repeat constructor|].
+    destruct (leb x y) eqn:E.
+    - constructor; [exact Hs|constructor; exact E].
+    - inversion Hs as [|? ? Hr Hhd]; subst. constructor; [apply IH; exact Hr|].
+      apply insert_hdrel; [apply leb_total; exact E|exact Hhd].
+  Qed.
+
+  Lemma isort_sorted l : Sorted le (isort leb l).
+  Proof. induction l as [|x r IH]; [constructor|]. cbn [isort]. apply insert_sorted_sorted. exact IH. Qed.
+
+  Lemma sort_unstable_by_spec (xs : list T) :
+    sort_unstable_by leb xs = (true, isort leb xs)
+    /\ Sorted le (isort leb xs) /\ Permutation (isort leb xs) xs.
+  Proof.
+    split; [|split; [apply isort_sorted|apply isort_perm]].
+    unfold sort_unstable_by. rewrite collect_from_trusted_exact.
+    assert (Hlen : length xs = length (isort leb xs)).
+    { apply Permutation_length. apply Permutation_sym. apply isort_perm. }
+    unfold apply_mut_with. rewrite Hlen, Nat.eqb_refl. f_equal.
+    generalize (isort leb xs) Hlen. clear. induction xs as [|x r IH]; intros l Hl.
+    - destruct l; [reflexivity|discriminate].
+    - destruct l as [|y l]; [discriminate|]. cbn [combine map fst snd]. f_equal. apply IH.
+      cbn in Hl. lia.
+  Qed.
+End SortProofs.
